@@ -58,6 +58,7 @@ def step (t : Tree) (ws : List String) : Tree × String :=
       let o := (Zix.C06.treeStep t (.ins e)).2
       (t', s!"st={if st == .success then "SUCCESS" else "EXISTS"} it={id} size={t'.size}" ++ wbE t' cmps' (Zix.C08Avl.evOf (.ins e) o))
     | none => (t, "bad-op")
+  | ["newfail"] => (t, "newfail=NULL" ++ (wbE t 0 []).replace "ev[]" "ev[M0]")
   | ["insfail", k] =>
     match k.toInt? with
     | some e =>
